@@ -1,6 +1,7 @@
 SPECIFICATION Spec
 CONSTANTS KnownDevs = {}
 INVARIANTS
+  InEnvelope
   C12_AtMostOnePlusNTransmissions
   C12_SpacedByResponseTimeout
   C12_StopsOnResponseDeadOnlyWhenAllUnanswered
@@ -10,7 +11,6 @@ INVARIANTS
   C12_FeaturesMatchConfiguration
   C12_HeartbeatAnsweredAnyTime
   C05_NoDatapathResidue
-  InEnvelope
 POSTCONDITION TraceAccepted
 ALIAS Alias
 CHECK_DEADLOCK FALSE
